@@ -730,7 +730,7 @@ Lemma op_safe s o :
               = spec_blobs_step H (fun x => exists_file (sfs s) (FBlob x)) o d') /\
   forall k, Recoverable H (sfs s) (crash_fs H shuffle false false true s o k) (sfs (runop s o)).
 Proof.
-  intro I. unfold run_op, crash_fs, op_steps. destruct o as [d cont man|d r|r|d| |live].
+  intro I. unfold run_op, crash_fs, op_steps. destruct o as [d cont man|d r|r|d| |dd|live].
   - (* Push *)
     cbn [op_mem spec_blobs_step]. destruct (exists_file (sfs s) (FBlob d)) eqn:Ex.
     + destruct (noop_safe s _ _ I eq_refl eq_refl) as (N1 & NA & N2 & N3).
@@ -780,6 +780,18 @@ Proof.
     destruct (idx_only_safe s (stags s) (sdigs s) I (inv_tagdig s I) (inv_digs s I) (inv_fun s I)) as (I1 & A1 & F1 & R1).
     split; [exact I1|split; [intros _; exact A1|split; [|exact R1]]]. intro d'. cbn [sfs]. unfold exists_file.
     rewrite F1; [reflexivity|discriminate|reflexivity].
+  - (* TagDig *)
+    cbn [op_mem spec_blobs_step]. destruct (exists_file (sfs s) (FBlob dd)) eqn:Ex.
+    + apply exists_file_true in Ex.
+      destruct (idx_only_safe s (stags s) (dig_add dd (sdigs s)) I) as (I1 & A1 & F1 & R1).
+      * intros r' n Hin. apply dig_add_incl. exact (inv_tagdig s I r' n Hin).
+      * intros n Hin. apply dig_add_In in Hin as [->|Hin]; [exact Ex|now apply (inv_digs s I)].
+      * exact (inv_fun s I).
+      * split; [exact I1|split; [intros _; exact A1|split; [|exact R1]]]. intro d'. cbn [sfs]. unfold exists_file.
+        rewrite F1; [reflexivity|discriminate|reflexivity].
+    + destruct (noop_safe s _ _ I eq_refl eq_refl) as (N1 & NA & N2 & N3).
+      split; [exact N1|split; [exact NA|split; [|exact N3]]].
+      intro d'. cbn [sfs]. unfold exists_file. now rewrite N2.
   - (* Forget *)
     cbn [op_mem spec_blobs_step].
     set (digs' := filter (fun x => memN x live || existsb (fun e => snd e =? x) (stags s)) (sdigs s)).
@@ -866,7 +878,7 @@ Proof.
   intros I [Rb Rt]. split.
   - intro d'. destruct (op_safe s o I) as (_ & _ & E & _). rewrite E.
     apply spec_blobs_ext. exact Rb.
-  - unfold run_op. destruct o as [d cont man|d r|r|d| |live]; cbn [op_mem spec_tags_step].
+  - unfold run_op. destruct o as [d cont man|d r|r|d| |dd|live]; cbn [op_mem spec_tags_step].
     + (* Push: the tag map does not change *)
       destruct (exists_file (sfs s) (FBlob d)); [exact Rt|].
       destruct (negb (H cont =? d)); [exact Rt|]. destruct man; exact Rt.
@@ -897,6 +909,7 @@ Proof.
         -- intros [Eq _]. exact Eq.
         -- intro Eq. injection Eq as <-. split; [reflexivity|now rewrite E].
     + exact Rt.
+    + destruct (exists_file (sfs s) (FBlob dd)); exact Rt.
     + exact Rt.
 Qed.
 
@@ -973,7 +986,7 @@ Ltac tc_solve :=
 
 Lemma op_steps_tc s o : all_tc (sctr s) (steps s o).
 Proof.
-  unfold op_steps. cbv beta iota delta [auto_idx]. destruct o as [d cont man|d r|r|d| |live]; cbn [op_mem].
+  unfold op_steps. cbv beta iota delta [auto_idx]. destruct o as [d cont man|d r|r|d| |dd|live]; cbn [op_mem].
   - destruct (exists_file (sfs s) (FBlob d)); [apply all_tc_nil|].
     destruct (H cont =? d); cbn [negb]; destruct man; tc_solve.
   - destruct (exists_file (sfs s) (FBlob d)); tc_solve.
@@ -981,6 +994,7 @@ Proof.
   - destruct (existsb (fun e => snd e =? d) (stags s) || memN d (sdigs s));
       destruct (exists_file (sfs s) (FBlob d)); tc_solve.
   - tc_solve.
+  - destruct (exists_file (sfs s) (FBlob dd)); tc_solve.
   - tc_solve.
 Qed.
 
@@ -1171,7 +1185,7 @@ Ltac ipf_solve :=
 
 Theorem no_in_place_write s o : all_ipf (steps s o).
 Proof.
-  unfold op_steps. cbv beta iota delta [auto_idx]. destruct o as [d cont man|d r|r|d| |live]; cbn [op_mem].
+  unfold op_steps. cbv beta iota delta [auto_idx]. destruct o as [d cont man|d r|r|d| |dd|live]; cbn [op_mem].
   - destruct (exists_file (sfs s) (FBlob d)); [apply all_ipf_nil|].
     destruct (H cont =? d); cbn [negb]; destruct man; ipf_solve.
   - destruct (exists_file (sfs s) (FBlob d)); ipf_solve.
@@ -1179,6 +1193,7 @@ Proof.
   - destruct (existsb (fun e => snd e =? d) (stags s) || memN d (sdigs s));
       destruct (exists_file (sfs s) (FBlob d)); ipf_solve.
   - ipf_solve.
+  - destruct (exists_file (sfs s) (FBlob dd)); ipf_solve.
   - ipf_solve.
 Qed.
 
@@ -1255,6 +1270,257 @@ Lemma new_steps_eq li fs c :
    else [Create (FIndexTmp c); Write (FIndexTmp c) (AIndex []); Close (FIndexTmp c);
          Rename (FIndexTmp c) FIndex]).
 Proof. unfold new_steps, index_steps. cbn [save map filter app]. now rewrite shuffle_nil. Qed.
+
+(* ---------- initialisation interrupted any number of times ---------- *)
+Section AtomicWrite.
+Variables (t q : fpath) (a : atom) (fs : FS).
+Hypothesis Htq : t <> q.
+Hypothesis Hnone : files fs t = None.
+Let aw := [Create t; Write t a; Close t; Rename t q].
+
+Lemma aw_final :
+  files (apply aw fs) q = Some (mkFile [a] false) /\ files (apply aw fs) t = None /\
+  forall p, p <> q -> p <> t -> files (apply aw fs) p = files fs p.
+Proof.
+  unfold aw, apply. cbn [fold_left apply1]. rewrite Hnone.
+  cbn [files]. rewrite upd_same. cbn [files fcontent fro app]. rewrite upd_same.
+  cbn [files]. split; [|split].
+  - rewrite upd_other by (intro E; apply Htq; now symmetry). apply upd_same.
+  - apply upd_same.
+  - intros p H1 H2. now rewrite !upd_other by assumption.
+Qed.
+
+Lemma aw_prefix k p : (k < 4)%nat -> p <> t -> files (apply (firstn k aw) fs) p = files fs p.
+Proof.
+  intros Hk Hp. apply apply_frame. intros m Hin.
+  assert (Hm : In m [Create t; Write t a; Close t]).
+  { unfold aw in Hin. destruct k as [|[|[|[|k]]]]; try lia; cbn in Hin; cbn; tauto. }
+  cbn in Hm. intro Ht.
+  destruct Hm as [<-|[<-|[<-|[]]]]; cbn in Ht; try contradiction; now subst p.
+Qed.
+
+Lemma aw_all k : (4 <= k)%nat -> firstn k aw = aw.
+Proof. intro Hk. apply firstn_all2. unfold aw. simpl. lia. Qed.
+End AtomicWrite.
+
+(* a directory in the middle of (re-)initialisation: no blobs yet; oci-layout and index.json
+   each absent or complete; temporaries of future attempts do not exist *)
+Definition InitOK (fs : FS) (c : nat) : Prop :=
+  (forall d, files fs (FBlob d) = None) /\
+  (files fs FLayout = None \/ files fs FLayout = Some (mkFile [ALayout] false)) /\
+  (files fs FIndex = None \/ files fs FIndex = Some (mkFile [AIndex []] false)) /\
+  (forall p, is_temp p = true -> (c <= temp_ctr p)%nat -> files fs p = None).
+
+Lemma initok_new_ok fs c : InitOK fs c -> new_okb fs = true.
+Proof.
+  intros (_ & [L|L] & [X|X] & _); unfold new_okb, exists_file, layout_okb, read_index; rewrite L, X; reflexivity.
+Qed.
+
+Definition lay_part (fs : FS) (c : nat) : list mstep :=
+  if exists_file fs FLayout then [] else layout_steps false c.
+Definition idx_part (fs : FS) (c : nat) : list mstep :=
+  if exists_file fs FIndex then []
+  else [Create (FIndexTmp c); Write (FIndexTmp c) (AIndex []); Close (FIndexTmp c); Rename (FIndexTmp c) FIndex].
+
+(* one attempt, cut anywhere (or completed): still a directory in the middle of initialisation *)
+Lemma initok_piece fs c (t q : fpath) (a : atom) (piece : list mstep) k :
+  InitOK fs c -> is_temp t = true -> temp_ctr t = c -> (q = FLayout /\ a = ALayout \/ q = FIndex /\ a = AIndex []) ->
+  (piece = [] /\ files fs q <> None \/ piece = [Create t; Write t a; Close t; Rename t q] /\ files fs q = None) ->
+  let fs' := apply (firstn k piece) fs in
+  (forall d, files fs' (FBlob d) = None) /\
+  (files fs' FLayout = None \/ files fs' FLayout = Some (mkFile [ALayout] false)) /\
+  (files fs' FIndex = None \/ files fs' FIndex = Some (mkFile [AIndex []] false)) /\
+  (forall p, is_temp p = true -> (S c <= temp_ctr p)%nat -> files fs' p = None) /\
+  ((4 <= k)%nat -> files fs' q <> None) /\
+  (forall p, is_temp p = true -> (c <= temp_ctr p)%nat -> p <> t -> files fs' p = None) /\
+  ((4 <= k)%nat -> files fs' t = None) /\
+  (forall p, p <> q -> p <> t -> files fs' p = files fs p).
+Proof.
+  intros (B & L & X & T) Ht Hc Hq [[-> Hex]|[-> Hn]] fs'.
+  - unfold fs'. rewrite firstn_nil. cbn [apply fold_left].
+    repeat split; auto. intros p Hp Hk. apply T; [exact Hp|lia].
+    intros _. apply T; [exact Ht|lia].
+  - assert (Htq : t <> q) by (destruct Hq as [[-> _]|[-> _]]; intros ->; discriminate).
+    assert (Hnt : files fs t = None) by (apply T; [exact Ht|lia]).
+    assert (NT : forall p, is_temp p = false -> p <> t) by (intros p Hp ->; rewrite Ht in Hp; discriminate).
+    destruct (Nat.lt_ge_cases k 4) as [Hk|Hk].
+    + assert (F : forall p, p <> t -> files fs' p = files fs p) by (intros p Hp; now apply aw_prefix).
+      repeat split.
+      * intro d. rewrite F by (now apply NT). apply B.
+      * rewrite F by (now apply NT). exact L.
+      * rewrite F by (now apply NT). exact X.
+      * intros p Hp Hk'. rewrite F; [apply T; [exact Hp|lia]|]. intros ->. lia.
+      * lia.
+      * intros p Hp Hk' Hne. rewrite F by exact Hne. now apply T.
+      * lia.
+      * intros p _ Hne. now apply F.
+    + unfold fs'. rewrite aw_all by exact Hk.
+      destruct (aw_final t q a fs Htq Hnt) as (F1 & F2 & F3).
+      repeat split.
+      * intro d. rewrite F3; [apply B| |now apply NT]. destruct Hq as [[-> _]|[-> _]]; discriminate.
+      * destruct Hq as [[-> ->]|[-> _]]; [right; exact F1|]. rewrite F3; [exact L|discriminate|now apply NT].
+      * destruct Hq as [[-> _]|[-> ->]]; [|right; exact F1]. rewrite F3; [exact X|discriminate|now apply NT].
+      * intros p Hp Hk'. rewrite F3; [apply T; [exact Hp|lia]| |].
+        -- destruct Hq as [[-> _]|[-> _]]; intros ->; discriminate.
+        -- intros ->. lia.
+      * intros _. rewrite F1. discriminate.
+      * intros p Hp Hk' Hne. rewrite F3; [now apply T| |exact Hne].
+        destruct Hq as [[-> _]|[-> _]]; intros ->; discriminate.
+      * intros _. exact F2.
+      * exact F3.
+Qed.
+
+Lemma initok_files_eq fs fs' c : (forall p, files fs' p = files fs p) -> InitOK fs c -> InitOK fs' c.
+Proof.
+  intros E (B & L & X & T). unfold InitOK. rewrite !E. repeat split; auto.
+  - intro d. rewrite E. apply B.
+  - intros p Hp Hk. rewrite E. now apply T.
+Qed.
+
+Lemma mkdir_part_files fs k p :
+  files (apply (firstn k (if dirs fs DBlobs then [] else [Mkdir DBlobs])) fs) p = files fs p.
+Proof.
+  apply apply_frame. intros m Hin Ht. apply In_firstn in Hin.
+  destruct (dirs fs DBlobs); [destruct Hin|]. destruct Hin as [<-|[]]. exact Ht.
+Qed.
+
+(* one attempt of oci.New on a directory in the middle of initialisation, cut anywhere *)
+Theorem init_attempt fs c k :
+  InitOK fs c -> InitOK (apply (firstn k (new_steps shuffle false false fs c)) fs) (S c).
+Proof.
+  intro I0. rewrite new_steps_eq.
+  set (A := if dirs fs DBlobs then [] else [Mkdir DBlobs]).
+  set (Lp := if exists_file fs FLayout then [] else layout_steps false c).
+  set (Xp := if exists_file fs FIndex then []
+             else [Create (FIndexTmp c); Write (FIndexTmp c) (AIndex []); Close (FIndexTmp c);
+                   Rename (FIndexTmp c) FIndex]).
+  assert (Up : forall fs0 c0, InitOK fs0 c0 -> InitOK fs0 (S c0)).
+  { intros fs0 c0 (B & L & X & T). repeat split; auto. intros p Hp Hk. apply T; [exact Hp|lia]. }
+  destruct (firstn_app_cases k A (Lp ++ Xp)) as [[E _]|(k1 & E)]; rewrite E.
+  - apply Up. apply (initok_files_eq fs); [|exact I0]. intro p. apply mkdir_part_files.
+  - rewrite apply_app. set (fsA := apply A fs).
+    assert (FA : forall p, files fsA p = files fs p).
+    { intro p. unfold fsA, A. rewrite <- (firstn_all (if dirs fs DBlobs then [] else [Mkdir DBlobs])).
+      apply mkdir_part_files. }
+    assert (IA : InitOK fsA c) by (apply (initok_files_eq fs); assumption).
+    assert (HL : Lp = [] /\ files fsA FLayout <> None \/
+                 Lp = [Create (FLayoutTmp c); Write (FLayoutTmp c) ALayout; Close (FLayoutTmp c);
+                       Rename (FLayoutTmp c) FLayout] /\ files fsA FLayout = None).
+    { unfold Lp, exists_file. rewrite FA. destruct (files fs FLayout); [left; split; [reflexivity|discriminate]|right; now split]. }
+    assert (HX0 : forall fsL, files fsL FIndex = files fs FIndex ->
+                 Xp = [] /\ files fsL FIndex <> None \/
+                 Xp = [Create (FIndexTmp c); Write (FIndexTmp c) (AIndex []); Close (FIndexTmp c);
+                       Rename (FIndexTmp c) FIndex] /\ files fsL FIndex = None).
+    { intros fsL EL. unfold Xp, exists_file. rewrite EL.
+      destruct (files fs FIndex); [left; split; [reflexivity|discriminate]|right; now split]. }
+    destruct (firstn_app_cases k1 Lp Xp) as [[E1 Hle]|(k2 & E1)]; rewrite E1.
+    + (* inside the write of oci-layout *)
+      destruct (initok_piece fsA c (FLayoutTmp c) FLayout ALayout Lp k1 IA eq_refl eq_refl
+                  (or_introl (conj eq_refl eq_refl)) HL) as (P1 & P2 & P3 & P4 & _).
+      repeat split; assumption.
+    + (* oci-layout is in place; inside the write of index.json *)
+      rewrite apply_app. set (fsL := apply Lp fsA).
+      destruct (initok_piece fsA c (FLayoutTmp c) FLayout ALayout Lp (length Lp + 4) IA eq_refl eq_refl
+                  (or_introl (conj eq_refl eq_refl)) HL) as (P1 & P2 & P3 & _ & _ & P6 & P7 & P8).
+      rewrite firstn_all2 in P1, P2, P3, P6, P7, P8 by lia. fold fsL in P1, P2, P3, P6, P7, P8.
+      assert (IL : InitOK fsL c).
+      { repeat split; try assumption. intros p Hp Hk.
+        destruct (fpath_eqb p (FLayoutTmp c)) eqn:Ep.
+        - apply fpath_eqb_spec in Ep. subst p. apply P7. lia.
+        - apply P6; [exact Hp|exact Hk|]. intros ->. rewrite fpath_eqb_refl in Ep. discriminate. }
+      assert (EL : files fsL FIndex = files fs FIndex).
+      { rewrite P8 by discriminate. apply FA. }
+      destruct (initok_piece fsL c (FIndexTmp c) FIndex (AIndex []) Xp k2 IL eq_refl eq_refl
+                  (or_intror (conj eq_refl eq_refl)) (HX0 fsL EL)) as (Q1 & Q2 & Q3 & Q4 & _).
+      repeat split; assumption.
+Qed.
+
+(* ... and an attempt that runs to completion gives the initialised layout *)
+Theorem init_complete fs c :
+  InitOK fs c ->
+  let fs' := apply (new_steps shuffle false false fs c) fs in
+  files fs' FLayout = Some (mkFile [ALayout] false) /\
+  files fs' FIndex = Some (mkFile [AIndex []] false) /\
+  (forall d, files fs' (FBlob d) = None) /\ dirs fs' DBlobs = true.
+Proof.
+  intros I0 fs'.
+  (* the completed attempt is the cut at the end *)
+  pose proof (init_attempt fs c (length (new_steps shuffle false false fs c)) I0) as IE.
+  rewrite firstn_all in IE. fold fs' in IE. destruct IE as (B & _ & _ & _).
+  unfold fs'. rewrite new_steps_eq.
+  set (A := if dirs fs DBlobs then [] else [Mkdir DBlobs]).
+  set (Lp := if exists_file fs FLayout then [] else layout_steps false c).
+  set (Xp := if exists_file fs FIndex then []
+             else [Create (FIndexTmp c); Write (FIndexTmp c) (AIndex []); Close (FIndexTmp c);
+                   Rename (FIndexTmp c) FIndex]).
+  rewrite !apply_app. set (fsA := apply A fs).
+  assert (FA : forall p, files fsA p = files fs p).
+  { intro p. unfold fsA, A. rewrite <- (firstn_all (if dirs fs DBlobs then [] else [Mkdir DBlobs])).
+    apply mkdir_part_files. }
+  assert (DA : dirs fsA DBlobs = true).
+  { unfold fsA, A. destruct (dirs fs DBlobs) eqn:Ed; [exact Ed|reflexivity]. }
+  assert (IA : InitOK fsA c) by (apply (initok_files_eq fs); assumption).
+  assert (HL : Lp = [] /\ files fsA FLayout <> None \/
+               Lp = [Create (FLayoutTmp c); Write (FLayoutTmp c) ALayout; Close (FLayoutTmp c);
+                     Rename (FLayoutTmp c) FLayout] /\ files fsA FLayout = None).
+  { unfold Lp, exists_file. rewrite FA. destruct (files fs FLayout); [left; split; [reflexivity|discriminate]|right; now split]. }
+  destruct (initok_piece fsA c (FLayoutTmp c) FLayout ALayout Lp (length Lp + 4) IA eq_refl eq_refl
+              (or_introl (conj eq_refl eq_refl)) HL) as (P1 & P2 & P3 & _ & P5 & P6 & P7 & P8).
+  rewrite firstn_all2 in P1, P2, P3, P5, P6, P7, P8 by lia. set (fsL := apply Lp fsA) in *.
+  assert (IL : InitOK fsL c).
+  { repeat split; try assumption. intros p Hp Hk.
+    destruct (fpath_eqb p (FLayoutTmp c)) eqn:Ep.
+    - apply fpath_eqb_spec in Ep. subst p. apply P7. lia.
+    - apply P6; [exact Hp|exact Hk|]. intros ->. rewrite fpath_eqb_refl in Ep. discriminate. }
+  assert (HX : Xp = [] /\ files fsL FIndex <> None \/
+               Xp = [Create (FIndexTmp c); Write (FIndexTmp c) (AIndex []); Close (FIndexTmp c);
+                     Rename (FIndexTmp c) FIndex] /\ files fsL FIndex = None).
+  { unfold Xp, exists_file. assert (EL : files fsL FIndex = files fs FIndex) by (rewrite P8 by discriminate; apply FA).
+    rewrite EL. destruct (files fs FIndex); [left; split; [reflexivity|discriminate]|right; now split]. }
+  destruct (initok_piece fsL c (FIndexTmp c) FIndex (AIndex []) Xp (length Xp + 4) IL eq_refl eq_refl
+              (or_intror (conj eq_refl eq_refl)) HX) as (Q1 & Q2 & Q3 & _ & Q5 & _ & _ & Q8).
+  rewrite firstn_all2 in Q1, Q2, Q3, Q5, Q8 by lia. set (fsX := apply Xp fsL) in *.
+  assert (LL : files fsL FLayout <> None) by (apply P5; lia).
+  assert (XX : files fsX FIndex <> None) by (apply Q5; lia).
+  split; [|split; [|split]].
+  - rewrite Q8 by discriminate. destruct P2 as [P2|P2]; [contradiction|exact P2].
+  - destruct Q3 as [Q3|Q3]; [contradiction|exact Q3].
+  - exact Q1.
+  - (* directories: only Mkdir changes them *)
+    assert (DD : forall ms fs0, (forall m, In m ms -> forall d, m <> Mkdir d) -> dirs (apply ms fs0) = dirs fs0).
+    { induction ms as [|m ms IH]; intros fs0 Hm; [reflexivity|].
+      rewrite apply_cons, IH by (intros m' Hin; apply Hm; now right).
+      assert (Hm0 := Hm m (or_introl eq_refl)).
+      destruct m; cbn; try reflexivity; try (destruct (files fs0 _); reflexivity).
+      exfalso. exact (Hm0 d eq_refl). }
+    unfold fsX, fsL. rewrite !DD; [exact DA| |].
+    + intros m Hin d. destruct HL as [[-> _]|[-> _]]; [destruct Hin|].
+      destruct Hin as [<-|[<-|[<-|[<-|[]]]]]; discriminate.
+    + intros m Hin d. destruct HX as [[-> _]|[-> _]]; [destruct Hin|].
+      destruct Hin as [<-|[<-|[<-|[<-|[]]]]]; discriminate.
+Qed.
+
+(* any number of interrupted attempts: the directory never makes oci.New fail, and the first
+   attempt that completes gives the initialised layout *)
+Lemma initok_empty : InitOK empty_fs 0.
+Proof. repeat split; auto. Qed.
+
+Theorem init_restartable_many ks :
+  let fs := fst (init_attempts shuffle false false ks empty_fs 0) in
+  let c := snd (init_attempts shuffle false false ks empty_fs 0) in
+  let fs' := apply (new_steps shuffle false false fs c) fs in
+  new_okb fs = true /\
+  files fs' FLayout = Some (mkFile [ALayout] false) /\
+  files fs' FIndex = Some (mkFile [AIndex []] false) /\
+  (forall d, files fs' (FBlob d) = None) /\ dirs fs' DBlobs = true.
+Proof.
+  assert (G : forall ks fs c, InitOK fs c ->
+              InitOK (fst (init_attempts shuffle false false ks fs c)) (snd (init_attempts shuffle false false ks fs c))).
+  { induction ks0 as [|k ks0 IH]; intros fs c I0; [exact I0|].
+    cbn [init_attempts]. apply IH. now apply init_attempt. }
+  intros fs c fs'. pose proof (G ks empty_fs 0%nat initok_empty) as IK. fold fs c in IK.
+  split; [exact (initok_new_ok fs c IK)|]. exact (init_complete fs c IK).
+Qed.
 
 (* the first New is cut anywhere; the second New runs to completion *)
 Theorem init_restartable k :
@@ -1597,7 +1863,7 @@ Lemma stored_step_sound s x d acc :
 Proof.
   intros I Ha Hs. destruct x as [o|o k]; cbn [run_hop].
   - (* completed *)
-    destruct o as [d' c m|d' r|r|d'| |live]; cbn [stored_step] in Hs;
+    destruct o as [d' c m|d' r|r|d'| |dd|live]; cbn [stored_step] in Hs;
       try (apply blob_kept_by_op; [exact I|now apply Ha|intros ? E; discriminate]).
     + destruct ((d' =? d) && (H c =? d)) eqn:E.
       * apply andb_true_iff in E as [E1 E2]. apply N.eqb_eq in E1. subst d'.
@@ -1609,7 +1875,7 @@ Proof.
   - (* interrupted: present before and after the operation, hence at the cut *)
     rewrite sfs_reopen.
     assert (Hacc : acc = true /\ forall d', o = Delete d' -> d' <> d).
-    { destruct o as [d' c m|d' r|r|d'| |live]; cbn [stored_step] in Hs; try (split; [exact Hs|intros ? E; discriminate]).
+    { destruct o as [d' c m|d' r|r|d'| |dd|live]; cbn [stored_step] in Hs; try (split; [exact Hs|intros ? E; discriminate]).
       destruct (d' =? d) eqn:E; [discriminate|]. apply N.eqb_neq in E.
       split; [exact Hs|]. intros d0 E0. injection E0 as <-. exact E. }
     destruct Hacc as [Hacc Hn].
@@ -1654,7 +1920,7 @@ Lemma tag_kept_by_op s o d r :
   (forall d', o = Delete d' -> d' <> d) ->
   In (r, d) (stags (runop s o)).
 Proof.
-  intros Hin HT HU HD. unfold run_op. destruct o as [d' c m|d' r'|r'|d'| |live]; cbn [op_mem].
+  intros Hin HT HU HD. unfold run_op. destruct o as [d' c m|d' r'|r'|d'| |dd|live]; cbn [op_mem].
   - destruct (exists_file (sfs s) (FBlob d')); [exact Hin|].
     destruct (negb (H c =? d')); [exact Hin|]. destruct m; exact Hin.
   - destruct (exists_file (sfs s) (FBlob d')); cbn [stags]; [|exact Hin].
@@ -1665,6 +1931,7 @@ Proof.
   - cbn [stags]. apply filter_In. split; [exact Hin|]. cbn.
     apply negb_true_iff, N.eqb_neq. intro E. exact (HD d' eq_refl (eq_sym E)).
   - exact Hin.
+  - destruct (exists_file (sfs s) (FBlob dd)); exact Hin.
   - exact Hin.
 Qed.
 
@@ -1678,7 +1945,7 @@ Proof.
   destruct x as [o|o k]; cbn [run_hop] in *.
   - (* completed: read the memory of the state after *)
     apply (on_disk_mem _ d r Ihop).
-    destruct o as [d' c m|d' r'|r'|d'| |live]; cbn [tagged_step fst snd] in Hs;
+    destruct o as [d' c m|d' r'|r'|d'| |dd|live]; cbn [tagged_step fst snd] in Hs;
       try (apply tag_kept_by_op; [now apply Htg|intros; discriminate|intros; discriminate|intros; discriminate]).
     + destruct (r' =? r) eqn:Er; cbn [snd] in Hs.
       * apply N.eqb_eq in Er. subst r'. apply andb_true_iff in Hs as [Ed Hs]. apply N.eqb_eq in Ed. subst d'.
@@ -1695,7 +1962,7 @@ Proof.
        found is one of the two *)
     assert (Hk : tg = true /\ (forall d' r', o = Tag d' r' -> r' <> r) /\ (forall r', o = Untag r' -> r' <> r) /\
                  (forall d', o = Delete d' -> d' <> d)).
-    { destruct o as [d' c m|d' r'|r'|d'| |live]; cbn [tagged_step fst snd] in Hs;
+    { destruct o as [d' c m|d' r'|r'|d'| |dd|live]; cbn [tagged_step fst snd] in Hs;
         try (split; [exact Hs|repeat split; intros; discriminate]).
       - destruct (r' =? r) eqn:Er; cbn [snd] in Hs; [discriminate|]. apply N.eqb_neq in Er.
         split; [exact Hs|]. split; [|split; intros; discriminate]. intros d0 r0 E. injection E as _ <-. exact Er.
@@ -1732,13 +1999,375 @@ Proof.
       + intro Hs. apply (stored_step_sound s x d st I Hst).
         assert (E1 : fst (tagged_step H d r (st, tg) x) = stored_step H d st x).
         { unfold tagged_step. cbn [fst].
-          destruct x as [[| | | | |]|[| | | | |] ?]; cbn [fst]; try reflexivity;
+          destruct x as [[| | | | | |]|[| | | | | |] ?]; cbn [fst]; try reflexivity;
             match goal with |- fst (if ?c then _ else _) = _ => destruct c; reflexivity end. }
         rewrite E in E1. cbn [fst] in E1. now rewrite <- E1.
       + intro Ht. apply (on_disk_mem _ d r Ix).
         apply (tagged_step_sound s x d r st tg I Hst Htg). rewrite E. exact Ht. }
   intro Hf. apply (G h init false false inv_init); [discriminate|discriminate|exact Hf].
 Qed.
+
+(* ---------- ... and nothing is invented: what is on disk was put there by an operation ---------- *)
+Lemma blob_from_op s o d :
+  Inv s -> exists_file (sfs (runop s o)) (FBlob d) = true ->
+  exists_file (sfs s) (FBlob d) = true \/ (exists c m, o = Push d c m /\ H c = d).
+Proof.
+  intros I Hx. destruct (op_safe s o I) as (_ & _ & E & _). rewrite E in Hx.
+  destruct o as [d' c m|d' r|r|d'| |dd|live]; cbn in Hx; try (now left).
+  - destruct (exists_file (sfs s) (FBlob d')) eqn:Ex; [now left|].
+    destruct (H c =? d') eqn:Eh; [|now left].
+    destruct (d =? d') eqn:Ed; [|now left].
+    apply N.eqb_eq in Ed. subst d'. apply N.eqb_eq in Eh. right. now exists c, m.
+  - destruct (d =? d'); [discriminate|now left].
+Qed.
+
+Lemma tag_from_op s o d r :
+  In (r, d) (stags (runop s o)) -> In (r, d) (stags s) \/ o = Tag d r.
+Proof.
+  unfold run_op. destruct o as [d' c m|d' r'|r'|d'| |dd|live]; cbn [op_mem].
+  - destruct (exists_file (sfs s) (FBlob d')); [now left|].
+    destruct (negb (H c =? d')); [now left|]. destruct m; now left.
+  - destruct (exists_file (sfs s) (FBlob d')); cbn [stags]; [|now left].
+    intro Hin. apply tag_set_iff in Hin as [[-> ->]|[_ Hin]]; [now right|now left].
+  - destruct (tag_get r' (stags s)); cbn [stags]; [|now left].
+    intro Hin. unfold tag_del in Hin. apply filter_In in Hin as [Hin _]. now left.
+  - cbn [stags]. intro Hin. apply filter_In in Hin as [Hin _]. now left.
+  - now left.
+  - destruct (exists_file (sfs s) (FBlob dd)); now left.
+  - now left.
+Qed.
+
+Theorem nothing_invented (h : list hop) :
+  let s := runc H shuffle false false true h init in
+  (forall d, exists_file (sfs s) (FBlob d) = true -> pushed_in H d h) /\
+  (forall d r, In (r, d) (stags s) -> tagged_in d r h).
+Proof.
+  (* generalised over the prefix already executed *)
+  assert (G : forall h2 h1 s, Inv s ->
+              (forall d, exists_file (sfs s) (FBlob d) = true -> pushed_in H d h1) ->
+              (forall d r, In (r, d) (stags s) -> tagged_in d r h1) ->
+              let s' := runc H shuffle false false true h2 s in
+              (forall d, exists_file (sfs s') (FBlob d) = true -> pushed_in H d (h1 ++ h2)) /\
+              (forall d r, In (r, d) (stags s') -> tagged_in d r (h1 ++ h2))).
+  { induction h2 as [|x h2 IH]; intros h1 s I PB PT.
+    - cbn. rewrite app_nil_r. now split.
+    - cbn [runc fold_left]. replace (h1 ++ x :: h2) with ((h1 ++ [x]) ++ h2) by (now rewrite <- app_assoc).
+      apply IH; [now apply inv_run_hop| |].
+      + (* blobs *)
+        intros d Hx.
+        assert (Old : exists_file (sfs s) (FBlob d) = true -> pushed_in H d (h1 ++ [x])).
+        { intro Hs. destruct (PB d Hs) as (y & c & m & Hy & E1 & E2). exists y, c, m.
+          split; [apply in_or_app; now left|now split]. }
+        assert (New : forall c m, hop_op x = Push d c m -> H c = d -> pushed_in H d (h1 ++ [x])).
+        { intros c m E1 E2. exists x, c, m. split; [apply in_or_app; right; now left|now split]. }
+        destruct x as [o|o k]; cbn [run_hop] in Hx.
+        * destruct (blob_from_op s o d I Hx) as [Hs|(c & m & -> & Hc)]; [now apply Old|now apply (New c m)].
+        * rewrite sfs_reopen in Hx.
+          destruct (op_safe s o I) as (_ & _ & _ & R). destruct (R k) as (_ & _ & _ & _ & _ & P2).
+          destruct (P2 d) as [H0|H1].
+          { unfold has, exists_file in *. destruct (files _ (FBlob d)); [discriminate|discriminate]. }
+          { apply Old. unfold has, exists_file in *. destruct (files (sfs s) (FBlob d)); [reflexivity|contradiction]. }
+          { assert (E : exists_file (sfs (runop s o)) (FBlob d) = true).
+            { unfold has, exists_file in *. destruct (files (sfs (runop s o)) (FBlob d)); [reflexivity|contradiction]. }
+            destruct (blob_from_op s o d I E) as [Hs|(c & m & -> & Hc)]; [now apply Old|now apply (New c m)]. }
+      + (* tags *)
+        intros d r Hin.
+        assert (Old : In (r, d) (stags s) -> tagged_in d r (h1 ++ [x])).
+        { intro Hs. destruct (PT d r Hs) as (y & Hy & E). exists y. split; [apply in_or_app; now left|exact E]. }
+        assert (New : hop_op x = Tag d r -> tagged_in d r (h1 ++ [x])).
+        { intro E. exists x. split; [apply in_or_app; right; now left|exact E]. }
+        destruct x as [o|o k]; cbn [run_hop] in Hin.
+        * destruct (tag_from_op s o d r Hin) as [Hs| ->]; [now apply Old|now apply New].
+        * (* the resolver reloaded from the index.json found: the one before or the one after *)
+          assert (Ir : Inv (reopen (crash_fs H shuffle false false true s o k) (S (sctr s)))) by (now apply reopen_inv).
+          apply (on_disk_mem _ d r Ir) in Hin. destruct Hin as (l & Hl & Hd). rewrite sfs_reopen in Hl.
+          destruct (op_safe s o I) as (I1 & _ & _ & R). destruct (R k) as (_ & _ & _ & RI & _).
+          rewrite Hl in RI. destruct RI as [RI|RI].
+          { apply Old. apply (on_disk_mem s d r I). exists l. split; [now symmetry|exact Hd]. }
+          { assert (Hm : In (r, d) (stags (runop s o))).
+            { apply (on_disk_mem _ d r I1). exists l. split; [now symmetry|exact Hd]. }
+            destruct (tag_from_op s o d r Hm) as [Hs| ->]; [now apply Old|now apply New]. } }
+  intro s. destruct (G h [] init inv_init) as [A B].
+  - intros d Hx. cbn in Hx. destruct d; discriminate.
+  - intros d r [].
+  - split; [exact A|exact B].
+Qed.
+
+Corollary nothing_invented_disk (h : list hop) :
+  let s := runc H shuffle false false true h init in
+  (forall d, exists_file (sfs s) (FBlob d) = true -> pushed_in H d h) /\
+  (forall l d r, read_index (sfs s) = Some l -> tag_of l r d -> tagged_in d r h).
+Proof.
+  intro s. destruct (nothing_invented h) as [A B]. fold s in A, B. split; [exact A|].
+  intros l d r Hl Ht. apply B.
+  assert (I : Inv s) by (apply inv_runc; apply inv_init).
+  apply (on_disk_mem s d r I). now exists l.
+Qed.
+
+(* ======================================================================= *)
+(* The API layer: calls expanded to primitives (Model expand), histories of completed and
+   interrupted CALLS (runa), and "loadIndex succeeds" including decoding of manifests. *)
+Section Api.
+Variable mt : N -> bool.
+Variable dec : N -> bool.
+
+Notation expd := (expand H mt dec).
+Notation crops := (crash_ops H shuffle false false true).
+Notation runA := (runa H shuffle false false true mt dec).
+Notation runcall := (run_acall H shuffle false false true mt dec).
+Notation loadok := (load_okb mt dec).
+
+Lemma crash_fs_zero s o : crash_fs H shuffle false false true s o 0 = sfs s.
+Proof. reflexivity. Qed.
+
+Lemma inv_reopen_here s : Inv s -> Inv (reopen (sfs s) (S (sctr s))).
+Proof. intro I. rewrite <- (crash_fs_zero s SaveIndex). now apply reopen_inv. Qed.
+
+Lemma inv_crash_ops os : forall s k, Inv s -> Inv (crops s os k).
+Proof.
+  induction os as [|o os IH]; intros s k I; cbn [crash_ops].
+  - now apply inv_reopen_here.
+  - destruct (Nat.leb k (length (steps s o))).
+    + cbn [run_hop]. now apply reopen_inv.
+    + apply IH. now apply op_safe.
+Qed.
+
+Lemma inv_run_acall s x : Inv s -> Inv (runcall s x).
+Proof.
+  intro I. destruct x as [a|a k]; cbn [run_acall]; [now apply inv_run|now apply inv_crash_ops].
+Qed.
+
+Lemma inv_runa h : forall s, Inv s -> Inv (runA h s).
+Proof.
+  induction h as [|x h IH]; intros s I; [exact I|].
+  cbn [runa fold_left]. apply IH. now apply inv_run_acall.
+Qed.
+
+(* ---------- every entry the resolver holds by digest decodes if it is manifest-typed ---------- *)
+Definition DecInv (s : st) : Prop := forall n, In n (sdigs s) -> mt n = true -> dec n = true.
+
+Definition ok_at (s : st) (o : op) : Prop :=
+  match o with
+  | Push d _ true => dec d = true
+  | Tag d _ | TagDig d => exists_file (sfs s) (FBlob d) = true -> mt d = true -> dec d = true
+  | _ => True
+  end.
+
+Fixpoint all_ok (s : st) (os : list op) : Prop :=
+  match os with
+  | [] => True
+  | o :: r => ok_at s o /\ all_ok (runop s o) r
+  end.
+
+Lemma digs_step s o n :
+  In n (sdigs (runop s o)) ->
+  In n (sdigs s) \/ (exists c, o = Push n c true) \/
+  ((exists r, o = Tag n r) \/ o = TagDig n) /\ exists_file (sfs s) (FBlob n) = true.
+Proof.
+  unfold run_op. destruct o as [d c m|d r|r|d| |dd|live]; cbn [op_mem].
+  - destruct (exists_file (sfs s) (FBlob d)); cbn [sdigs]; [now left|].
+    destruct (negb (H c =? d)); cbn [sdigs]; [now left|].
+    destruct m; cbn [sdigs]; [|now left].
+    intro Hin. apply dig_add_In in Hin as [->|Hin]; [right; left; now exists c|now left].
+  - destruct (exists_file (sfs s) (FBlob d)) eqn:Ex; cbn [sdigs]; [|now left].
+    intro Hin. apply dig_add_In in Hin as [->|Hin]; [right; right; split; [left; now exists r|exact Ex]|now left].
+  - destruct (tag_get r (stags s)); cbn [sdigs]; now left.
+  - cbn [sdigs]. intro Hin. apply filter_In in Hin as [Hin _]. now left.
+  - now left.
+  - destruct (exists_file (sfs s) (FBlob dd)) eqn:Ex; cbn [sdigs]; [|now left].
+    intro Hin. apply dig_add_In in Hin as [->|Hin]; [right; right; split; [now right|exact Ex]|now left].
+  - cbn [sdigs]. intro Hin. apply filter_In in Hin as [Hin _]. now left.
+Qed.
+
+Lemma decinv_step s o : DecInv s -> ok_at s o -> DecInv (runop s o).
+Proof.
+  intros D Ho n Hin Hm. apply digs_step in Hin as [Hin|[(c & ->)|[[(r & ->)| ->] Ex]]].
+  - now apply D.
+  - exact Ho.
+  - now apply Ho.
+  - now apply Ho.
+Qed.
+
+Lemma decinv_run os : forall s, DecInv s -> all_ok s os -> DecInv (run H shuffle false false true os s).
+Proof.
+  induction os as [|o os IH]; intros s D A; [exact D|].
+  destruct A as [Ao Ar]. cbn [run fold_left]. apply IH; [now apply decinv_step|exact Ar].
+Qed.
+
+Lemma all_ok_split pre : forall s o post,
+  all_ok s (pre ++ o :: post) -> DecInv s ->
+  DecInv (run H shuffle false false true pre s) /\ ok_at (run H shuffle false false true pre s) o.
+Proof.
+  induction pre as [|p pre IH]; intros s o post A D.
+  - cbn in *. now split; [|destruct A].
+  - cbn [app all_ok] in A. destruct A as [Ap Ar]. cbn [run fold_left].
+    apply (IH _ o post Ar). now apply decinv_step.
+Qed.
+
+Lemma all_ok_trivial os : (forall o, In o os -> forall s, ok_at s o) -> forall s, all_ok s os.
+Proof.
+  induction os as [|o os IH]; intros Ho s; [exact I|].
+  split; [apply Ho; now left|]. apply IH. intros o' Hin. apply Ho. now right.
+Qed.
+
+Lemma expand_all_ok s a : all_ok s (expd s a).
+Proof.
+  destruct a as [d c|d r|r|d|d|d cas| |live sw|]; cbn [expand].
+  - destruct (mt d) eqn:Em; [|cbn; auto].
+    destruct (dec d) eqn:Ed; [cbn; auto|].
+    destruct (exists_file (sfs s) (FBlob d)); [cbn; auto|].
+    destruct (H c =? d); cbn; auto.
+  - destruct (exists_file (sfs s) (FBlob d) && mt d && negb (dec d)) eqn:E; [exact I|].
+    cbn. split; [|exact I]. intros Ex Hm. rewrite Ex, Hm in E. cbn in E.
+    destruct (dec d); [reflexivity|discriminate].
+  - cbn. auto.
+  - destruct (exists_file (sfs s) (FBlob d) && mt d && negb (dec d)) eqn:E; [exact I|].
+    cbn. split; [|exact I]. intros Ex Hm. rewrite Ex, Hm in E. cbn in E.
+    destruct (dec d); [reflexivity|discriminate].
+  - exact I.
+  - apply all_ok_trivial. intros o [<-|Hin] s'; [exact I|].
+    apply in_map_iff in Hin as (x & <- & _). exact I.
+  - cbn. auto.
+  - apply all_ok_trivial. intros o [<-|Hin] s'; [exact I|].
+    apply in_map_iff in Hin as (x & <- & _). exact I.
+  - exact I.
+Qed.
+
+(* the resolver reloaded from index.json holds only names the file lists *)
+Lemma reopen_digs fs c n :
+  In n (sdigs (reopen fs c)) -> exists l r, read_index fs = Some l /\ In (n, r) l.
+Proof.
+  unfold reopen. destruct (read_index fs) as [l|]; cbn [sdigs]; [|intros []].
+  intro Hin. destruct (load_spec l [] []) as (_ & A2 & _); [intros r0 n0 []|].
+  apply A2 in Hin as [[]|(r & Hr)]. now exists l, r.
+Qed.
+
+Lemma decinv_reopen_cut s o k :
+  Inv s -> DecInv s -> ok_at s o ->
+  DecInv (reopen (crash_fs H shuffle false false true s o k) (S (sctr s))).
+Proof.
+  intros I D Ho n Hin Hm.
+  apply reopen_digs in Hin as (l & r & Hl & Hr).
+  destruct (op_safe s o I) as (I1 & _ & _ & R). destruct (R k) as (_ & _ & _ & RI & _).
+  rewrite Hl in RI. destruct RI as [RI|RI].
+  - destruct (inv_index s I) as (l0 & Hl0 & He). rewrite Hl0 in RI. injection RI as <-.
+    apply D; [exact (He (n, r) Hr)|exact Hm].
+  - destruct (inv_index _ I1) as (l1 & Hl1 & He). rewrite Hl1 in RI. injection RI as <-.
+    apply (decinv_step s o D Ho); [exact (He (n, r) Hr)|exact Hm].
+Qed.
+
+Lemma decinv_crash_ops os : forall s k, Inv s -> DecInv s -> all_ok s os -> DecInv (crops s os k).
+Proof.
+  induction os as [|o os IH]; intros s k I D A; cbn [crash_ops].
+  - rewrite <- (crash_fs_zero s SaveIndex). apply decinv_reopen_cut; [exact I|exact D|exact Logic.I].
+  - destruct A as [Ao Ar]. destruct (Nat.leb k (length (steps s o))).
+    + cbn [run_hop]. now apply decinv_reopen_cut.
+    + apply IH; [now apply op_safe|now apply decinv_step|exact Ar].
+Qed.
+
+Lemma decinv_runa h : forall s, Inv s -> DecInv s -> DecInv (runA h s).
+Proof.
+  induction h as [|x h IH]; intros s I D; [exact D|].
+  cbn [runa fold_left]. apply IH; [now apply inv_run_acall|].
+  destruct x as [a|a k]; cbn [run_acall].
+  - apply decinv_run; [exact D|apply expand_all_ok].
+  - apply decinv_crash_ops; [exact I|exact D|apply expand_all_ok].
+Qed.
+
+Lemma decinv_init : DecInv init.
+Proof. intros n []. Qed.
+
+(* loadIndex succeeds on a quiescent state ... *)
+Lemma load_ok_state s : Inv s -> DecInv s -> loadok (sfs s) = true.
+Proof.
+  intros I D. unfold load_okb. destruct (inv_index s I) as (l & Hl & He). rewrite Hl.
+  apply forallb_forall. intros e Hin. apply andb_true_iff. split.
+  - pose proof (inv_digs s I _ (He e Hin)) as Hh. unfold has in Hh. unfold exists_file.
+    destruct (files (sfs s) (FBlob (fst e))); [reflexivity|contradiction].
+  - destruct (mt (fst e)) eqn:Em; [|reflexivity]. cbn. exact (D _ (He e Hin) Em).
+Qed.
+
+(* ... and on the directory found after any cut of any call, after any history of completed
+   and interrupted calls *)
+Theorem api_crash_load_ok (h : list acall) (a : api) k :
+  let s := runA h init in
+  loadok (crash_seq H shuffle false false true s (expd s a) k) = true.
+Proof.
+  intro s.
+  assert (I : Inv s) by (apply inv_runa; apply inv_init).
+  assert (D : DecInv s) by (apply decinv_runa; [apply inv_init|apply decinv_init]).
+  pose proof (expand_all_ok s a) as A.
+  destruct (seq_cut (expd s a) s k) as [(pre & o & post & k' & Eq & Ec)|Ef].
+  - rewrite Ec. rewrite Eq in A. destruct (all_ok_split pre s o post A D) as [Dj Oj].
+    set (sj := run H shuffle false false true pre s) in *.
+    assert (Ij : Inv sj) by (apply inv_run; exact I).
+    destruct (op_safe sj o Ij) as (I1 & _ & _ & R).
+    destruct (R k') as (_ & _ & (l & Hl & Hx) & RI & _).
+    unfold load_okb. rewrite Hl. apply forallb_forall. intros e Hin. apply andb_true_iff. split.
+    + pose proof (Hx e Hin) as Hh. unfold has in Hh. unfold exists_file.
+      destruct (files (crash_fs H shuffle false false true sj o k') (FBlob (fst e))); [reflexivity|contradiction].
+    + destruct (mt (fst e)) eqn:Em; [|reflexivity]. cbn. rewrite Hl in RI. destruct RI as [RI|RI].
+      * destruct (inv_index sj Ij) as (l0 & Hl0 & He). rewrite Hl0 in RI. injection RI as <-.
+        exact (Dj _ (He e Hin) Em).
+      * destruct (inv_index _ I1) as (l1 & Hl1 & He). rewrite Hl1 in RI. injection RI as <-.
+        exact (decinv_step sj o Dj Oj _ (He e Hin) Em).
+  - rewrite Ef. apply load_ok_state; [apply inv_run; exact I|apply decinv_run; [exact D|exact A]].
+Qed.
+
+(* every theorem about primitives applies to the calls of an API history: the cut of a call is
+   a crash state of one primitive of its expansion, between quiescent states *)
+Theorem api_crash_safe (h : list acall) (a : api) k :
+  let s := runA h init in
+  let os := expd s a in
+  let fsk := crash_seq H shuffle false false true s os k in
+  (exists pre o post,
+     os = pre ++ o :: post /\
+     let sj := run H shuffle false false true pre s in
+     Recoverable H (sfs sj) fsk (sfs (run_op H shuffle false false true sj o))) \/
+  (fsk = sfs (run H shuffle false false true os s) /\ Good fsk).
+Proof.
+  intros s os fsk.
+  assert (I : Inv s) by (apply inv_runa; apply inv_init).
+  destruct (seq_cut os s k) as [(pre & o & post & k' & Eq & Ec)|Ef].
+  - left. exists pre, o, post. split; [exact Eq|]. cbn zeta. unfold fsk. rewrite Ec.
+    apply op_safe. apply inv_run. exact I.
+  - right. split; [exact Ef|]. unfold fsk. rewrite Ef. apply inv_good. apply inv_run. exact I.
+Qed.
+
+(* ---------- a history of calls IS a history of primitives ---------- *)
+(* so every theorem about histories of primitives with crashes (C10_completed_*_survives_crashes,
+   C10_nothing_invented, ...) speaks about histories of API calls *)
+Lemma run_is_runc os : forall s, run H shuffle false false true os s = runc H shuffle false false true (map Done os) s.
+Proof. induction os as [|o os IH]; intro s; [reflexivity|]. cbn [run runc map fold_left]. apply IH. Qed.
+
+Lemma runc_app h1 h2 s :
+  runc H shuffle false false true (h1 ++ h2) s = runc H shuffle false false true h2 (runc H shuffle false false true h1 s).
+Proof. unfold runc. apply fold_left_app. Qed.
+
+Lemma crash_ops_is_runc os : forall s k,
+  exists hs, crops s os k = runc H shuffle false false true hs s /\
+             (forall x, In x hs -> In (hop_op x) os \/ x = Crashed SaveIndex 0).
+Proof.
+  induction os as [|o os IH]; intros s k; cbn [crash_ops].
+  - exists [Crashed SaveIndex 0]. split; [reflexivity|]. intros x [<-|[]]. now right.
+  - destruct (Nat.leb k (length (steps s o))).
+    + exists [Crashed o k]. split; [reflexivity|]. intros x [<-|[]]. left. now left.
+    + destruct (IH (runop s o) (k - length (steps s o))%nat) as (hs & E & Hh).
+      exists (Done o :: hs). split; [cbn [runc fold_left run_hop]; exact E|].
+      intros x [<-|Hin]; [left; now left|]. destruct (Hh x Hin) as [Hx|Hx]; [left; now right|now right].
+Qed.
+
+Theorem runa_is_runc h : forall s, exists hs, runA h s = runc H shuffle false false true hs s.
+Proof.
+  induction h as [|x h IH]; intro s; [now exists []|].
+  cbn [runa fold_left]. destruct (IH (runcall s x)) as (hs2 & E2).
+  destruct x as [a|a k]; cbn [run_acall] in *.
+  - exists (map Done (expd s a) ++ hs2). rewrite runc_app, <- run_is_runc. exact E2.
+  - destruct (crash_ops_is_runc (expd s a) s k) as (hs1 & E1 & _).
+    exists (hs1 ++ hs2). rewrite runc_app, <- E1. exact E2.
+Qed.
+
+End Api.
 
 End Crash.
 
@@ -1784,6 +2413,12 @@ Proof. vm_compute. reflexivity. Qed.
 
 Lemma src_gc_order : src_gc_order_ok = true.
 Proof. vm_compute. reflexivity. Qed.
+
+Lemma src_guards : src_guards_ok = true.
+Proof. vm_compute. reflexivity. Qed.
+Lemma src_locks : src_locks_ok = true.
+Proof. vm_compute. reflexivity. Qed.
+
 
 Theorem crash_safe_src :
   forall (H : list N -> N) (shuffle : nat -> list entry -> list entry),
@@ -1943,4 +2578,71 @@ Theorem completed_tag_survives_src :
       exists l, read_index (sfs (runc H shuffle src_inplace src_unlink_first true h init)) = Some l /\
                 tag_of l r d.
 Proof. rewrite src_inplace_false, src_unlink_first_false. exact completed_tag_survives. Qed.
+
+Theorem api_crash_load_ok_src :
+  forall (H : list N -> N) (shuffle : nat -> list entry -> list entry),
+    (forall c l e, In e (shuffle c l) <-> In e l) ->
+    forall (mt dec : N -> bool) (h : list acall) (a : api) (k : nat),
+      let s := runa H shuffle src_inplace src_unlink_first true mt dec h init in
+      load_okb mt dec (crash_seq H shuffle src_inplace src_unlink_first true s (expand H mt dec s a) k) = true.
+Proof. rewrite src_inplace_false, src_unlink_first_false. exact api_crash_load_ok. Qed.
+
+Theorem api_crash_safe_src :
+  forall (H : list N -> N) (shuffle : nat -> list entry -> list entry),
+    (forall c l e, In e (shuffle c l) <-> In e l) ->
+    forall (mt dec : N -> bool) (h : list acall) (a : api) (k : nat),
+      let s := runa H shuffle src_inplace src_unlink_first true mt dec h init in
+      let os := expand H mt dec s a in
+      let fsk := crash_seq H shuffle src_inplace src_unlink_first true s os k in
+      (exists pre o post,
+         os = pre ++ o :: post /\
+         let sj := run H shuffle src_inplace src_unlink_first true pre s in
+         Recoverable H (sfs sj) fsk (sfs (run_op H shuffle src_inplace src_unlink_first true sj o))) \/
+      (fsk = sfs (run H shuffle src_inplace src_unlink_first true os s) /\
+       layout_ok fsk /\ blob_ok H fsk /\ index_ok fsk).
+Proof. rewrite src_inplace_false, src_unlink_first_false. exact api_crash_safe. Qed.
+
+Theorem init_restartable_many_src :
+  forall (shuffle : nat -> list entry -> list entry),
+    (forall c l e, In e (shuffle c l) <-> In e l) ->
+    forall (ks : list nat),
+      let fs := fst (init_attempts shuffle src_inplace src_layout_inplace ks empty_fs 0) in
+      let c := snd (init_attempts shuffle src_inplace src_layout_inplace ks empty_fs 0) in
+      let fs' := apply (new_steps shuffle src_inplace src_layout_inplace fs c) fs in
+      new_okb fs = true /\
+      files fs' FLayout = Some (mkFile [ALayout] false) /\
+      files fs' FIndex = Some (mkFile [AIndex []] false) /\
+      (forall d, files fs' (FBlob d) = None) /\ dirs fs' DBlobs = true.
+Proof. rewrite src_inplace_false, src_layout_inplace_false. exact init_restartable_many. Qed.
+
+Theorem nothing_invented_src :
+  forall (H : list N -> N) (shuffle : nat -> list entry -> list entry),
+    (forall c l e, In e (shuffle c l) <-> In e l) ->
+    forall (h : list hop),
+      let s := runc H shuffle src_inplace src_unlink_first true h init in
+      (forall d, exists_file (sfs s) (FBlob d) = true -> pushed_in H d h) /\
+      (forall l d r, read_index (sfs s) = Some l -> tag_of l r d -> tagged_in d r h).
+Proof. rewrite src_inplace_false, src_unlink_first_false. exact nothing_invented_disk. Qed.
+
+Theorem runa_is_runc_src :
+  forall (H : list N -> N) (shuffle : nat -> list entry -> list entry),
+    (forall c l e, In e (shuffle c l) <-> In e l) ->
+    forall (mt dec : N -> bool) (h : list acall),
+    exists hs, runa H shuffle src_inplace src_unlink_first true mt dec h init
+               = runc H shuffle src_inplace src_unlink_first true hs init.
+Proof.
+  rewrite src_inplace_false, src_unlink_first_false.
+  intros H shuffle _ mt dec h. exact (runa_is_runc H shuffle mt dec h init).
+Qed.
+
+(* audit F2 before the repairs: Push left the undecodable manifest behind and Tag accepted it
+   (the primitives [Push d c false; Tag d r] on a manifest-typed, undecodable d): the index
+   names content on which loadIndex fails *)
+Lemma reopen_refuted_undecodable :
+  exists (mt dec : N -> bool) (H : list N -> N) (os : list op),
+    load_okb mt dec (sfs (run H (fun _ l => l) false false true os init)) = false.
+Proof.
+  exists (fun d => d =? 7), (fun d => negb (d =? 7)), (fun _ => 7), [Push 7 [9] false; Tag 7 8].
+  vm_compute. reflexivity.
+Qed.
 
